@@ -52,6 +52,35 @@ func (e *Engine) verifyFunction(f *ssa.Function, spec *FuncSpec) *collector {
 	// preconditions
 	env := s.specEnv()
 	env.vars = s.entryVars
+	if spec != nil && spec.Implements != "" && !spec.merged {
+		// the function must also satisfy the contract of the named function type
+		ft := e.specs[f.Pkg.Pkg.Name()+"."+spec.Implements]
+		if ft == nil {
+			coll.obls = append(coll.obls, &Obligation{Func: e.fnKey(f), Kind: "anchor", Name: "anchor:implements " + spec.Implements, Props: specProps(spec),
+				Goal: "false", Expect: "unsat", Where: spec.Where, Detail: "unknown function-type contract"})
+		} else {
+			spec.Requires = append(append([]*Clause(nil), ft.Requires...), spec.Requires...)
+			spec.Ensures = append(append([]*Clause(nil), spec.Ensures...), ft.Ensures...)
+			if !spec.HasMod {
+				spec.Modifies, spec.HasMod = ft.Modifies, ft.HasMod
+			}
+			spec.Props = unionProps(spec.Props, ft.Props)
+			// positional parameter names of the function type are bound to this function's parameters
+			for i, n := range ft.ftParams {
+				if i < len(f.Params) {
+					s.entryVars[n] = s.regs[f.Params[i]]
+				}
+			}
+			spec.ftParams = ft.ftParams
+		}
+		spec.merged = true
+	} else if spec != nil && spec.merged {
+		for i, n := range spec.ftParams {
+			if i < len(f.Params) {
+				s.entryVars[n] = s.regs[f.Params[i]]
+			}
+		}
+	}
 	if spec != nil {
 		for _, c := range spec.Requires {
 			c := c
@@ -250,6 +279,10 @@ func (s *State) enterLoop(l *Loop) {
 		}
 	}
 	for g := range mods.ghost {
+		if tt, decl := s.eng.ghostDecls[g]; decl {
+			t := env.resolveTypeIn(tt, s.eng.ghostPkg[g])
+			s.ghostGet(g, t)
+		}
 		if cur, ok := s.ghost[g]; ok {
 			s.ghost[g] = s.freshVal("loop:"+g, cur.T)
 		}
@@ -265,9 +298,12 @@ func (s *State) enterLoop(l *Loop) {
 		}
 	}
 	if mods.allocs {
-		na := s.fresh("alloc", sInt)
-		s.assume(app(">=", na, s.alloc))
-		s.alloc = na
+		var tags []string
+		for t := range mods.allocTags {
+			tags = append(tags, t)
+		}
+		sortStrings(tags)
+		s.bumpAllocTyped(tags, mods.allocUnknown || mods.all)
 	}
 	s.loops = append(s.loops, lf)
 	// 3. assume invariants
@@ -324,6 +360,8 @@ type modSet struct {
 	ghost  map[string]bool
 	all    bool
 	allocs bool
+	allocTags    map[string]bool
+	allocUnknown bool
 }
 
 func (m *modSet) heapBases() []string {
@@ -345,7 +383,7 @@ func sortStrings(a []string) {
 
 // loopMods computes (syntactically) what the body of l may modify.
 func (e *Engine) loopMods(s *State, l *Loop) *modSet {
-	m := &modSet{heaps: map[string][]heapLeaf{}, ghost: map[string]bool{}}
+	m := &modSet{heaps: map[string][]heapLeaf{}, ghost: map[string]bool{}, allocTags: map[string]bool{}}
 	seenCell := map[*ssa.Alloc]bool{}
 	addBase := func(base string, t types.Type) {
 		if _, ok := m.heaps[base]; !ok {
@@ -360,6 +398,7 @@ func (e *Engine) loopMods(s *State, l *Loop) *modSet {
 			switch in := in.(type) {
 			case *ssa.Alloc:
 				m.allocs = true
+				m.allocTags[typeKey(derefType(in.Type()))] = true
 				if e.isLocalCell(in) && !seenCell[in] {
 					seenCell[in] = true
 					m.cells = append(m.cells, in)
@@ -377,6 +416,11 @@ func (e *Engine) loopMods(s *State, l *Loop) *modSet {
 				}
 			case *ssa.MakeMap, *ssa.MakeSlice, *ssa.MakeChan, *ssa.MakeClosure, *ssa.MakeInterface:
 				m.allocs = true
+				if v, ok := in.(ssa.Value); ok {
+					if tg := refTag(v.Type()); tg != "" {
+						m.allocTags[tg] = true
+					}
+				}
 			case ssa.CallInstruction:
 				e.callMods(s, in.Common(), m, addBase)
 			}
@@ -485,6 +529,7 @@ func (e *Engine) callMods(s *State, c *ssa.CallCommon, m *modSet, addBase func(s
 		}
 		m.all = true
 		m.allocs = true
+		m.allocUnknown = true
 		return
 	}
 	key := e.fnKey(callee)
@@ -495,6 +540,12 @@ func (e *Engine) callMods(s *State, c *ssa.CallCommon, m *modSet, addBase func(s
 	if ls := libSpecFor(callee); ls != nil {
 		if ls.allocs {
 			m.allocs = true
+		}
+		for _, g := range ls.ghosts {
+			m.ghost[g] = true
+		}
+		for _, tg := range resultTags(c) {
+			m.allocTags[tg] = true
 		}
 		if ls.inplace {
 			// in-place operation on the local the argument was loaded from
@@ -510,18 +561,44 @@ func (e *Engine) callMods(s *State, c *ssa.CallCommon, m *modSet, addBase func(s
 		}
 		return
 	}
-	m.all = true
+	if callee.Pkg != nil && e.ssaPkgs[callee.Pkg.Pkg.Name()] == callee.Pkg {
+		// repository function without contract
+		m.all = true
+		m.allocs = true
+		m.allocUnknown = true
+		return
+	}
+	// external library function without specification: opaque, effect-free on the program's heap (same rule as at the call)
 	m.allocs = true
+	for _, tg := range resultTags(c) {
+		m.allocTags[tg] = true
+	}
 }
 
 func (e *Engine) specMods(s *State, spec *FuncSpec, callee *ssa.Function, m *modSet, addBase func(string, types.Type)) {
 	if !spec.HasMod {
 		m.all = true
 		m.allocs = true
+		m.allocUnknown = true
 		return
 	}
 	m.allocs = true
+	{
+		env := s.specEnv()
+		if callee != nil && callee.Pkg != nil {
+			env.pkg = callee.Pkg.Pkg
+		} else if p := e.typesPkgs[spec.Pkg]; p != nil {
+			env.pkg = p
+		}
+		for _, tt := range spec.AllocTypes {
+			tt := tt
+			_ = safeSpec(func() { m.allocTags[typeKey(env.resolveType(tt))] = true })
+		}
+	}
 	for _, it := range e.frameItemsStatic(s, spec, callee) {
+		if it.ghost != "" {
+			m.ghost[it.ghost] = true
+		}
 		for _, hb := range it.bases {
 			m.heaps[hb.base] = hb.leaves
 		}
@@ -545,6 +622,7 @@ func mapHeapBases(mt *types.Map) []heapBaseInfo {
 		hl := heapLeaf{Name: "mapval<" + k + ">" + l.Name, Sort: arrSort(sInt, arrSort(ks, l.Sort)), Elem: arrSort(ks, l.Sort)}
 		if l.Ref {
 			hl.MapValRef = ks
+			hl.Tag = l.Tag
 		}
 		vl = append(vl, hl)
 	}
@@ -565,6 +643,12 @@ func (s *State) havocAll() {
 		if strings.HasPrefix(g, "global:") {
 			s.ghost[g] = s.freshVal(g, s.ghost[g].T)
 		}
+	}
+	env := s.specEnv()
+	for g, tt := range s.eng.ghostDecls {
+		t := env.resolveTypeIn(tt, s.eng.ghostPkg[g])
+		s.ghostGet(g, t)
+		s.ghost[g] = s.freshVal("ghost:"+g, t)
 	}
 }
 
@@ -588,6 +672,7 @@ func (s *State) havocBaseWithFrame(base string, leaves []heapLeaf, fr *frameSpec
 // ---- frames -------------------------------------------------------------------
 
 type frameItem struct {
+	ghost string
 	whole bool
 	ref   string
 	bases []heapBaseInfo
@@ -610,6 +695,13 @@ func (s *State) evalFrameItems(items []*SExpr, env *SpecEnv) []frameItem {
 
 func (s *State) evalFrameItem(it *SExpr, env *SpecEnv) frameItem {
 	fi := frameItem{src: it.String()}
+	if it.Op == "ident" && strings.HasPrefix(it.Name, "$") {
+		if _, ok := s.eng.ghostDecls[it.Name]; !ok {
+			specFail("modifies %s: undeclared ghost variable", it.Name)
+		}
+		fi.ghost = it.Name
+		return fi
+	}
 	switch it.Op {
 	case "sel":
 		// Type.field (whole heap) or expr.field
@@ -717,10 +809,14 @@ func (s *State) buildFrame(items []*SExpr, has bool, env *SpecEnv, desc string) 
 	if !has {
 		return &frameSpec{Unrestricted: true}
 	}
-	fr := &frameSpec{Whole: map[string]bool{}, Refs: map[string][]string{}, AllocPre: s.alloc, Desc: desc}
+	fr := &frameSpec{Whole: map[string]bool{}, Refs: map[string][]string{}, AllocPre: s.alloc, Desc: desc, Ghost: map[string]bool{}}
 	var srcs []string
 	for _, it := range s.evalFrameItems(items, env) {
 		srcs = append(srcs, it.src)
+		if it.ghost != "" {
+			fr.Ghost[it.ghost] = true
+			continue
+		}
 		for _, b := range it.bases {
 			if it.whole {
 				fr.Whole[b.base] = true
@@ -972,11 +1068,11 @@ func (s *State) exec(in ssa.Instruction) {
 		for _, b := range in.Bindings {
 			v.Binds = append(v.Binds, s.valueOf(b))
 		}
-		v.Terms = []string{s.allocRef("closure")}
+		v.Terms = []string{s.allocRef("closure", "$closure")}
 		s.regs[in] = v
 	case *ssa.MakeMap:
 		mt := in.Type().Underlying().(*types.Map)
-		r := s.allocRef("map")
+		r := s.allocRef("map", typeKey(in.Type()))
 		s.mapInit(mt, r)
 		s.regs[in] = Val{T: in.Type(), Terms: []string{r}}
 	case *ssa.MakeSlice:
@@ -987,7 +1083,7 @@ func (s *State) exec(in ssa.Instruction) {
 		z.Terms[1] = "false"
 		s.regs[in] = z
 	case *ssa.MakeChan:
-		r := s.allocRef("chan")
+		r := s.allocRef("chan", typeKey(in.Type()))
 		s.regs[in] = Val{T: in.Type(), Terms: []string{r}}
 		s.ghost["chancap:"+in.Name()] = s.valueOf(in.Size)
 		s.assume(eq(app("chan_cap", r), s.valueOf(in.Size).Terms[0]))
@@ -1093,7 +1189,7 @@ func (s *State) execAlloc(a *ssa.Alloc) {
 		s.regs[a] = Val{T: a.Type(), Loc: &Loc{Cell: a, RootT: t}, Terms: []string{"(- 1)"}}
 		return
 	}
-	r := s.allocRef("new:" + a.Comment)
+	r := s.allocRef("new:"+a.Comment, typeKey(t))
 	z := zeroVal(t)
 	if st, ok := t.Underlying().(*types.Struct); ok {
 		for i := 0; i < st.NumFields(); i++ {
@@ -1682,6 +1778,24 @@ func (s *State) doReturn(in *ssa.Return) {
 	// a return inside loops ends the current iteration of each of them
 	for k := len(s.loops) - 1; k >= 0; k-- {
 		s.evalSteps(s.loops[k], true, results)
+	}
+	// ghost variables not named in the modifies clause must be unchanged
+	if s.fnFrame != nil && !s.fnFrame.Unrestricted {
+		var gs []string
+		for g := range s.ghost {
+			if _, decl := s.eng.ghostDecls[g]; decl && !s.fnFrame.Ghost[g] {
+				gs = append(gs, g)
+			}
+		}
+		sortStrings(gs)
+		for _, g := range gs {
+			v := s.ghost[g]
+			var cs []string
+			for i, l := range shapeOf(v.T) {
+				cs = append(cs, eq(v.Terms[i], s.ghostConst(g, l)))
+			}
+			s.oblige("frame", "ghost:"+g, s.defaultProps(), and(cs...), s.eng.pos(in.Pos()), "modifies "+s.fnFrame.Desc)
+		}
 	}
 	env.fn = nil // post-conditions talk about parameters (entry values), results and the heap
 	where := s.eng.pos(in.Pos())
